@@ -1,0 +1,89 @@
+//go:build verif
+
+package common
+
+// Contracts for the JSON converters (C19, C10, C11). Comment-only file; read by /verif/znvc.
+//
+// rep1(e, p): the Zn value e and the plain Go value p (what encoding/json marshals / unmarshals) correspond
+// at their top level: 空 <-> nil, text <-> string, 真/假 <-> bool, number <-> float64 (same bits), list <-> []any
+// of the same length, dictionary <-> non-nil map[string]any. Every converter establishes, for its own argument and
+// result: rep1, equal key sets (dictionaries), and rep1 for each pair of children. The same code runs on every
+// child, so the full structural correspondence is the inductive closure of these facts (induction on the depth of
+// the value, on paper; the contract does not carry "child k of the result is the result of the recursive call").
+
+//@ pred rep1(e runtime.Element, p any) =
+//@   (is(e, *value.Null) ==> p == nil) &&
+//@   (is(e, *value.String) ==> is(p, string) && as(p, string) == as(e, *value.String).value) &&
+//@   (is(e, *value.Bool) ==> is(p, bool) && as(p, bool) == as(e, *value.Bool).value) &&
+//@   (is(e, *value.Number) ==> is(p, float64) && as(p, float64) == as(e, *value.Number).value) &&
+//@   (is(e, *value.Array) ==> is(p, anyslice) && len(as(p, anyslice)) == len(as(e, *value.Array).value)) &&
+//@   (is(e, *value.HashMap) ==> is(p, anymap))
+
+// the JSON data model: what encoding/json produces when unmarshalling into map[string]any
+//@ pred jsonPlain(p any) = p == nil || is(p, string) || is(p, bool) || is(p, float64) || is(p, anyslice) || is(p, anymap)
+
+//@ func buildPlainValueFromElement
+//@   requires okElem(elem)
+//@   modifies nothing
+//@   ensures [top-level] rep1(elem, result)
+//@   ensures [dictionary-never-null] is(elem, *value.HashMap) ==> as(result, anymap) != nil
+//@   ensures [same-keys] is(elem, *value.HashMap) ==> (forall k string :: has(as(result, anymap), k) <==> has(as(elem, *value.HashMap).value, k))
+//@   ensures [list-children] is(elem, *value.Array) ==> (forall i int :: 0 <= i && i < len(as(elem, *value.Array).value) ==> rep1(as(elem, *value.Array).value[i], as(result, anyslice)[i]))
+//@   ensures [dictionary-children] is(elem, *value.HashMap) ==> (forall k string :: has(as(elem, *value.HashMap).value, k) ==> rep1(as(elem, *value.HashMap).value[k], as(result, anymap)[k]))
+//@   ensures [other-values-become-null] !is(elem, *value.Null) && !is(elem, *value.String) && !is(elem, *value.Bool) && !is(elem, *value.Number) && !is(elem, *value.Array) && !is(elem, *value.HashMap) ==> result == nil
+//@   loop 1 invariant (resultList.base == 0 || fresh(resultList)) && len(resultList) == rangeindex + 1 &&
+//@                    (forall i int :: 0 <= i && i <= rangeindex ==> rep1(as(elem, *value.Array).value[i], resultList[i]))
+//@   loop 2 invariant fresh(resultMap) && (forall k string :: visited(k) ==> has(as(elem, *value.HashMap).value, k)) && (forall k string :: has(resultMap, k) <==> visited(k)) &&
+//@                    (forall k string :: visited(k) ==> rep1(as(elem, *value.HashMap).value[k], resultMap[k]))
+
+//@ func buildElementFromPlainValue
+//@   modifies nothing
+//@   ensures okElem(result) && fresh(result)
+//@   ensures [top-level] jsonPlain(item) ==> rep1(result, item)
+//@   ensures [kinds] (item == nil ==> is(result, *value.Null)) && (is(item, string) ==> is(result, *value.String)) && (is(item, bool) ==> is(result, *value.Bool)) &&
+//@                   (is(item, float64) ==> is(result, *value.Number)) && (is(item, anyslice) ==> is(result, *value.Array)) && (is(item, anymap) ==> is(result, *value.HashMap))
+//@   ensures [same-keys] is(item, anymap) ==> (forall k string :: has(as(result, *value.HashMap).value, k) <==> has(as(item, anymap), k))
+//@   ensures [list-length] is(item, anyslice) ==> len(as(result, *value.Array).value) == len(as(item, anyslice))
+//@   ensures [list-children] is(item, anyslice) ==> (forall i int :: 0 <= i && i < len(as(item, anyslice)) && jsonPlain(as(item, anyslice)[i]) ==> rep1(as(result, *value.Array).value[i], as(item, anyslice)[i]))
+//@   ensures [dictionary-children] is(item, anymap) ==> (forall k string :: has(as(item, anymap), k) && jsonPlain(as(item, anymap)[k]) ==> rep1(as(result, *value.HashMap).value[k], as(item, anymap)[k]))
+//@   ensures [dictionary-well-formed] is(item, anymap) ==> hmWF(as(result, *value.HashMap))
+//@   loop 1 invariant fresh(target) && hmWF(target) && fresh(target.value) && (target.keyOrder.base == 0 || fresh(target.keyOrder)) &&
+//@                    (forall k string :: visited(k) ==> has(as(item, anymap), k)) && (forall k string :: has(target.value, k) <==> visited(k)) &&
+//@                    (forall k string :: visited(k) ==> allocated(target.value[k])) &&
+//@                    (forall k string :: visited(k) && jsonPlain(as(item, anymap)[k]) ==> rep1(target.value[k], as(item, anymap)[k]))
+//@   loop 2 invariant fresh(varr) && (varr.value.base == 0 || fresh(varr.value)) && len(varr.value) == rangeindex + 1 &&
+//@                    (forall i int :: 0 <= i && i <= rangeindex ==> allocated(varr.value[i]) && varr.value[i].ptr != varr) &&
+//@                    (forall i int :: 0 <= i && i <= rangeindex && jsonPlain(as(item, anyslice)[i]) ==> rep1(varr.value[i], as(item, anyslice)[i]))
+
+// encoding/json is trusted: Marshal returns either an error (e.g. a non-finite number) or the bytes; Unmarshal into
+// a *map[string]any either fails or fills the map with values of the JSON data model.
+//@ external json.Marshal(v) (data, err)
+//@   modifies nothing
+//@   ensures err == nil || err.ptr != 0
+//@ external json.Unmarshal(data, v) (err)
+//@   modifies box(as(v, *anymap))
+//@   ensures err == nil || err.ptr != 0
+
+// a failure of the JSON library is an exception signal a 拦截 handler can catch; never both / neither result
+//@ func HashMapToJSONString
+//@   requires hm != nil
+//@   modifies nothing
+//@   ensures [error-is-catchable] r1 != nil ==> r0 == nil && is(r1, *error.Signal) && as(r1, *error.Signal).SigType == error.SigTypeException
+//@   ensures [ok-result] r1 == nil ==> r0 != nil && fresh(r0)
+//@   ensures [converts-the-argument] @buildPlainValueFromElement#1.done && @buildPlainValueFromElement#1.arg0 == iface(hm, *value.HashMap)
+
+//@ func ElementToJSONString
+//@   requires okElem(elem)
+//@   modifies nothing
+//@   ensures [error-is-catchable] r1 != nil ==> r0 == nil && is(r1, *error.Signal) && as(r1, *error.Signal).SigType == error.SigTypeException
+//@   ensures [ok-result] r1 == nil ==> r0 != nil && fresh(r0)
+
+//@ func JSONStringToElement
+//@   requires jsonStr != nil
+//@   modifies nothing
+//@   ensures [error-is-catchable] r1 != nil ==> r0 == nil && is(r1, *error.Signal) && as(r1, *error.Signal).SigType == error.SigTypeException
+//@   ensures [ok-result] r1 == nil ==> okElem(r0) && is(r0, *value.HashMap) && hmWF(as(r0, *value.HashMap))
+
+// ---- C11: determinism inventories ----
+//@ maprange buildPlainValueFromElement#1 determined same-keys,dictionary-children : a Go map is built from a Go map; its key set and the top-level shape of every entry are pinned down
+//@ maprange buildElementFromPlainValue#1 order-dependent : the dictionary's key order (观察: 显示, 遍历, 所有索引, 生成JSON) is the order in which Go's map iteration delivers the keys of the decoded JSON object
